@@ -220,6 +220,27 @@ def check(prop, tier, seed):
         scripts.append({"tid": tid, "mode": "free", "alive_ids": ids[:nalive], "free_seq": free, "progs": progs, "schedule": [],
                         "post": 0})
         tid += 1
+    # lazy floods: several threads queue thousands of actions in ONE frame (more than any fixed-size
+    # buffer a queue might be given), a few of them chains that queue further ones from inside maintain
+    for i in range(2 if tier == "quick" else 8):
+        nt = [4, 8][i % 2]
+        per = rng.choice([1100, 1400, 2300]) * 4 // nt          # 4400 .. 9200 actions in the frame
+        progs = []
+        for t in range(nt):
+            prog = []
+            tag = 0
+            for _ in range(per):
+                if rng.random() < 0.003:
+                    d = rng.choice([1, 3, 9])
+                    prog.append(["lazyc", t * 100000 + tag + 1, d])
+                    tag += d + 1
+                else:
+                    tag += 1
+                    prog.append(["lazy", t * 100000 + tag])
+            progs.append(prog)
+        scripts.append({"tid": tid, "mode": "free", "alive_ids": [0, 1], "free_seq": [2, 3], "progs": progs, "schedule": [],
+                        "post": 0})
+        tid += 1
     workdir = os.path.join(C.OUT, "work", "%s_%d" % (key, os.getpid()))
     C.sh(["rm", "-rf", workdir])
     r = C.exec_and_validate("conc", scripts, workdir, "Conc_Trace.tla", "Conc_Trace.cfg", events_per_chunk=300)
